@@ -144,7 +144,7 @@ def evaluate(rep, cases, known_sigs):
                 indep = formats.load_all(f, text)
                 if f in ("yaml", "yml"):
                     indep = [x for x in indep]
-                if len(indep) != len(expect) or not all(formats.same(a, b) for a, b in zip(indep, expect)):
+                if len(indep) != len(expect) or not all(formats.same(a, b, True) for a, b in zip(indep, expect)):
                     fails.append((f, f"independent {f} parser reads different documents"))
             except Exception as e:
                 fails.append((f, f"independent {f} parser rejects the output: {str(e)[:100]}"))
@@ -154,7 +154,7 @@ def evaluate(rep, cases, known_sigs):
             else:
                 try:
                     back = formats.json_load_all(r["out"])
-                    if len(back) != len(expect) or not all(formats.same(a, b) for a, b in zip(back, expect)):
+                    if len(back) != len(expect) or not all(formats.same(a, b, True) for a, b in zip(back, expect)):
                         fails.append((f, f"bkl reads back different documents from its own {f} output"))
                 except Exception as e:
                     fails.append((f, f"re-read output unparsable: {e}"))
